@@ -58,9 +58,10 @@ CHECKS = {
         note=NOTE + "Partial by nature: data-race freedom under the C++ memory model is sampled by ThreadSanitizer on the explored schedules, not proved; the theorem covers the logic of what is shared and that results do not depend on the schedule. The dylib backend is not executed."),
     "C06": dict(
         engine="conv", design_ref="DESIGN.md §6 C06",
-        technique="Lean 4 theorem over all integer type pairs and values (case split + omega) + differential execution vs model driver + 128-bit oracle",
+        technique="Lean 4 theorem over all integer type pairs and values (case split + omega), stated about a model proved equal to the if-constexpr chain TRANSLATED from rlbox_conversion.hpp on every run (gen/extract_facts.py -> Generated.convChain) + differential execution vs model driver + 128-bit oracle",
         text=("Proof: C06_scalar_partial/C06_array/C06_abi_pairs state value-or-abort for every ordered pair of integer types and every value "
-              "(no sampling) on a literal transcription of convert_type_fundamental; the transcription is tied to the code by block-exhaustive "
+              "(no sampling) on convertFund, which C06_model_is_translated_source proves equal to the meaning of the chain parsed from the source on every run "
+              "(C06_translated_chain_faithful states C06 about that chain directly); additionally tied to the code by block-exhaustive "
               "differential runs (all sources <=16 bit, thorough: all 2^32 values of every 32-bit source against a 128-bit oracle) and boundary/random "
               "runs through the raw helper and the six public paths on three ABIs."),
         note=NOTE + "Out of scope: bool destination from non-bool source (never produced by the ABI mapping; C06_bool_witness)."),
